@@ -312,7 +312,7 @@ PROPS = {
         "rule": "a case is one table entry (a group of API calls sharing generated hostile arguments) or one call sequence, replayable from the PRNG state. Every case is non-trivial (hostile arguments); one case in 16 is entered "
                 "into the distinct set, keyed by the PRNG state, so the distinct count is a sampled lower bound. 'api_calls' counts individual library calls.",
         "require": {"cases": {"quick": 400000, "thorough": 20000000}, "api_calls": 2000000, "documented_code_judgements": 200000, "polygons": 30000, "sequence": 30000, "disks": 30000,
-                    "fuzz.execs": {"quick": 36000, "thorough": 2000000}, "fuzz.corpus_units_kept": 1000},
+                    "fuzz.execs": {"quick": 36000, "thorough": 700000}, "fuzz.corpus_units_kept": 1000},
         "assumptions": ["documented codes as tabulated in DESIGN.md Appendix A", "red-zone sanitizers do not see non-adjacent overflows into other live objects"],
     },
     "C13": {
